@@ -145,7 +145,7 @@ theorem char_literals_are_pieces (c : CP) (h1 : c ≠ 39) (h2 : c ≠ 92) (h3 : 
 
 /-- string literals *with* escape sequences: the body is any sequence of segments - a plain run followed by one complete
 escape sequence - and a final plain run; the token holds the UTF-8 bytes of the runs and the bytes of the escapes in order.
-Every simple escape of the regenerated table and every `\xHH` is a complete escape sequence (`\u{…}` is not covered). -/
+Every simple escape of the regenerated table, every `\xHH` and every `\u{h…}` (below) is a complete escape sequence. -/
 theorem escaped_string_literals_are_pieces (segs : List Seg) (hs : ∀ s ∈ segs, SegOK s) (last : Line) (lenc : List (List Nat))
     (hl : ∀ c ∈ last, c ≠ 92 ∧ c ≠ 34) (hlenc : last.mapM utf8 = some lenc) :
     SelfDelim (34 :: (bodyText segs ++ (last ++ [34]))) (.str (bodyBytes segs ++ lenc.flatten)) :=
@@ -294,6 +294,23 @@ theorem touching_quoted (rest : Line) :
       last.mapM utf8 = some lenc → ReadsAs (34 :: (bodyText segs ++ (last ++ [34]))) (.str (bodyBytes segs ++ lenc.flatten)) rest) ∧
     (∀ c, c ≠ 39 → c ≠ 92 → c < 128 → ReadsAs [39, c, 39] (.chr c) rest) :=
   ⟨fun segs last lenc hs hl hlenc => readsAs_string_esc segs hs last lenc hl hlenc rest, fun c h1 h2 h3 => readsAs_char c h1 h2 h3 rest⟩
+
+/-- character literals written with a complete one-byte escape sequence (`'\\n'`, `'\\x41'`, `'\\''`, …), and `\\u{h…}` as a
+complete escape sequence (at least one hex digit, a value up to 0x10FFFF that is not a surrogate; usable in strings and,
+when it encodes to one byte, in character literals) -/
+theorem escaped_char_literals_are_pieces (e : Line) (b : Nat) (he : IsEsc e [b]) (rest : Line) :
+    ReadsAs (39 :: (e ++ [39])) (.chr b) rest :=
+  readsAs_char_esc e b he rest
+
+theorem unicode_escapes_complete (hs : Line) (bs : List Nat) (hne : hs ≠ []) (hh : ∀ c ∈ hs, (hexVal c).isSome = true)
+    (hcp : ofDigits 16 (hs.filterMap hexVal) ≤ 0x10FFFF) (hu : utf8 (ofDigits 16 (hs.filterMap hexVal)) = some bs) :
+    IsEsc (92 :: 117 :: 123 :: (hs ++ [125])) bs :=
+  isEsc_unicode hs bs hne hh hcp hu
+
+example : ReadsAs (cps "'\\n'") (.chr 10) (cps ";") ∧ IsEsc (cps "\\u{e9}") [0xC3, 0xA9] ∧ ReadsAs (cps "'\\u{41}'") (.chr 65) [] :=
+  ⟨readsAs_char_esc [92, 110] 10 (isEsc_simple 110 10 [10] (by decide) (by decide)) _,
+   isEsc_unicode (cps "e9") _ (by decide) (by decide +kernel) (by decide +kernel) (by decide +kernel),
+   readsAs_char_esc (cps "\\u{41}") 65 (isEsc_unicode (cps "41") _ (by decide) (by decide +kernel) (by decide +kernel) (by decide +kernel)) _⟩
 
 /-- `f(x1)+=0x1F;//c` and `while(n<=10)"a b"` : no white space anywhere between the tokens -/
 example :
